@@ -1,6 +1,7 @@
 import PytaskProofs.Lemmas.EngineCrash
 import PytaskProofs.Lemmas.EngineConverge
 import PytaskProofs.Lemmas.EngineGraph
+import PytaskProofs.Lemmas.EngineExit
 /-!
 # C05 — abrupt termination never leaves state that hides outstanding work
 
@@ -199,6 +200,55 @@ theorem C05_converge_partial (F : BodyFn) (P : Project) (cfg cfg' : Cfg) (g : G)
     (dataOrdered_of_loop F hdag' hs so0 so3 _ s3 picks2 hso hloop2)
     (frameOrdered_of_loop F hdag' hs so0 so3 _ s3 picks2 hso hloop2)
 
+/-- **C05_converge** (the statement in terms of what pytask returns). As `C05_converge_partial`, with the recovery build given
+as a `build` result: a project without skip markers, a recovery build without `-k`/`-m` selection and not a dry-run (forced
+or not, any failure limit), whose loop ran to its end (`complete`) and which returned **exit code 0**. Then every product is
+its body's function of the module and dependency contents on disk, all rows match, and every later non-forced build, under
+any configuration, executes nothing and leaves the world as it is. (The remaining gap to the property text is on the side of
+the *killed* build only: the tasks it had processed before the kill are assumed to have ended SUCCESS / SKIP_UNCHANGED; see
+`C05_converge_partial`.) -/
+theorem C05_converge (F : BodyFn) (P : Project) (cfg cfg' : Cfg) (g : G) (marks : List Nat)
+    (hs : WFSpec P) (hns : NoSkips P) (hdag : createDag P cfg = .ok (g, marks))
+    (so0 : Sorter) (hso : Sorter.fromDag g isTaskV (prioFn P) = .ok so0)
+    -- the killed build
+    (w0 : World) (hrc : RC F P g w0.db) (done : List Nat) (tstar : Nat) (specS : TaskSpec) (so1 soS : Sorter) (s1 sS : Sess)
+    (hloop1 : buildLoop F P g cfg so0 { w := w0, skipMarks := marks } done = .ok (so1, s1))
+    (hgood1 : ∀ rep ∈ s1.reports, GoodOutcome rep.2)
+    (hpickS : buildLoop F P g cfg so1 s1 [tstar] = .ok (soS, sS)) (hfindS : Project.find? P tstar = some specS) (j : Nat)
+    -- the recovery build
+    (hk : cfg'.selK = none) (hm : cfg'.selM = none) (hdry : cfg'.dry = false) (picks2 : List Nat) (r : Result)
+    (hb : build F P cfg' (applySteps s1.w ((protocolSteps F P g cfg s1 specS).take j)) picks2 = .ok r)
+    (hexit : r.exit = 0) (hcomplete : r.complete = true) :
+    (∀ t ∈ P.tasks, Fresh F r.w t) ∧ (∀ t ∈ P.tasks, RowsMatch P g r.w t.id) ∧
+    (∀ (cfg'' : Cfg) (picks : List Nat) (r' : Result), cfg''.force = false → build F P cfg'' r.w picks = .ok r' →
+        r'.log = [] ∧ r'.w = r.w) := by
+  obtain ⟨marks', hdag'⟩ := createDag_cfg P cfg cfg' g marks hdag
+  have hmarks : marks' = [] := by rw [createDag_marks P cfg' g marks' hdag', deselected_none P g cfg' hk hm]
+  subst hmarks
+  obtain ⟨so3, s3, hloop2, hw, _, hex, hco⟩ := build_ok_loop F P cfg' _ picks2 r g [] so0 hdag' hso hb
+  rw [hex] at hexit
+  obtain ⟨hcr, hnf⟩ := exit_zero hexit
+  have hnofail : ∀ rep ∈ s3.reports, rep.2 ≠ .fail := by
+    intro rep hrep hf
+    have : s3.reports.any (fun r => r.2 == .fail) = true := List.any_eq_true.2 ⟨rep, hrep, by simp [hf]⟩
+    rw [this] at hnf; cases hnf
+  obtain ⟨hgood2, hstop⟩ := clean_loop F P g cfg' hdry hns hs.noPersist picks2 so0 _ so3 s3 ⟨rfl, rfl, rfl, rfl⟩
+    (fun _ h => by cases h) hloop2 hnofail hcr
+  have hinactive : so3.isActive = false := by
+    rw [hco, hstop, hcr] at hcomplete
+    simpa using hcomplete
+  have hall := all_picked F hdag' so0 so3 _ s3 picks2 hso hloop2 hinactive
+  obtain ⟨h1, h2, h3⟩ := C05_converge_partial F P cfg cfg' g marks [] hs hdag hdag' so0 hso w0 hrc done tstar specS so1 soS s1 sS
+    hloop1 hgood1 hpickS hfindS j picks2 so3 s3 hloop2 hgood2 hcr hall
+  rw [hw]
+  refine ⟨h1, h2, ?_⟩
+  intro cfg'' picks r' hforce hb'
+  obtain ⟨marks'', hdag''⟩ := createDag_cfg P cfg cfg'' g marks hdag
+  obtain ⟨so5, s5, hloop3, hw', hl', _, _⟩ := build_ok_loop F P cfg'' _ picks r' g marks'' so0 hdag'' hso hb'
+  have := h3 cfg'' so0 so5 { w := s3.w, skipMarks := marks'' } s5 picks hforce rfl hloop3
+  rw [hw', hl']
+  exact ⟨this.1, this.2⟩
+
 /-! ### The limit: an edit between the kill and the recovery build (finding F20)
 
 Read literally ("no later build …"), the property also covers builds that follow *edits made after the kill*. At that strength
@@ -295,6 +345,17 @@ example : ∃ (so1 soS so3 : Sorter) (s1 sS s3 : Sess),
   refine ⟨_, _, _, _, _, _, rfl, rfl, rfl, by decide, ?_⟩
   exact C05_no_redo c05F c05P {} {} c05G [] [] c05_wfspec (by rfl) c05So (by rfl) c05W [0] 1 c05T1 _ _ _ _ rfl (by decide) rfl
     rfl rfl 2 [0, 1] _ _ rfl rfl
+
+/-- `C05_converge` instantiated: killed inside the row commits of task 0; the recovery `build` returns exit code 0 with a complete
+loop — all hypotheses hold, the conclusion gives the from-scratch fixpoint of the recovered world. -/
+example : ∃ r : Result,
+    build c05F c05P {} (applySteps c05W ((protocolSteps c05F c05P c05G {} { w := c05W, skipMarks := [] } c05T0).take 4)) [0, 1] = .ok r ∧
+    r.exit = 0 ∧ r.complete = true ∧ r.log = [0, 1] ∧ ∀ t ∈ c05P.tasks, Fresh c05F r.w t := by
+  refine ⟨_, rfl, by decide, by decide, by decide, ?_⟩
+  exact (C05_converge c05F c05P {} {} c05G [] c05_wfspec
+    (by intro t ht; simp [c05P] at ht; rcases ht with rfl | rfl <;> exact ⟨rfl, rfl⟩) (by rfl) c05So (by rfl)
+    c05W (C05_rc_init _ _ _) [] 0 c05T0 c05So _ _ _ rfl (by intro rep h; cases h) rfl rfl 4 rfl rfl rfl [0, 1] _ rfl
+    (by decide) (by decide)).1
 
 /-- the F20 witness in the model: after the kill and the edit, the recovery build reports the task unchanged and leaves the
 stale product (`0` = "agree") although the inputs now differ (`1`, `0`) -/
